@@ -309,6 +309,24 @@ func (w *w1) bounds(info *types.Info, facts []condFact, v types.Object, body ast
 			case token.LSS, token.LEQ:
 				lower = true
 			}
+		} else if ok && len(as.Rhs) == 1 {
+			// min/max idiom: v := K; if x < v { v = x }  (v never exceeds K)  /  if x > v { v = x }
+			xo := identObj(info, as.Rhs[0])
+			if xo != nil && xo != v {
+				l, rr := identObj(info, be.X), identObj(info, be.Y)
+				switch {
+				case l == xo && rr == v && (be.Op == token.LSS || be.Op == token.LEQ),
+					l == v && rr == xo && (be.Op == token.GTR || be.Op == token.GEQ):
+					if w.initUntainted(info, body, v) {
+						upper = true
+					}
+				case l == xo && rr == v && (be.Op == token.GTR || be.Op == token.GEQ),
+					l == v && rr == xo && (be.Op == token.LSS || be.Op == token.LEQ):
+					if w.initUntainted(info, body, v) {
+						lower = true
+					}
+				}
+			}
 		}
 		return true
 	})
@@ -317,6 +335,31 @@ func (w *w1) bounds(info *types.Info, facts []condFact, v types.Object, body ast
 		lower = true
 	}
 	return
+}
+
+// initUntainted: v is defined (v := E / var v = E) from an expression that carries no wire value.
+func (w *w1) initUntainted(info *types.Info, body ast.Node, v types.Object) bool {
+	ok := false
+	ast.Inspect(body, func(n ast.Node) bool {
+		switch x := n.(type) {
+		case *ast.AssignStmt:
+			if x.Tok == token.DEFINE {
+				for i, l := range x.Lhs {
+					if id, isID := l.(*ast.Ident); isID && info.Defs[id] == v && i < len(x.Rhs) && len(x.Lhs) == len(x.Rhs) {
+						ok = !w.exprTainted(info, x.Rhs[i])
+					}
+				}
+			}
+		case *ast.ValueSpec:
+			for i, id := range x.Names {
+				if info.Defs[id] == v && i < len(x.Values) {
+					ok = !w.exprTainted(info, x.Values[i])
+				}
+			}
+		}
+		return true
+	})
+	return ok
 }
 
 func ruleW1(r *Run) {
@@ -518,6 +561,29 @@ func ruleW1(r *Run) {
 				case "UnsafeMakeSlice":
 					for _, a := range x.Args {
 						check("UnsafeMakeSlice", x, a, true, true)
+					}
+				}
+			case *ast.BinaryExpr:
+				// count*k: ReadCount bounds a count only for in-memory input; read from an io.Reader it can be
+				// anything up to the int range, and the product wraps around
+				if x.Op == token.MUL || x.Op == token.SHL {
+					for _, opnd := range []ast.Expr{x.X, x.Y} {
+						if x.Op == token.SHL && opnd == x.Y {
+							continue
+						}
+						v := taintedVar(opnd)
+						if v == nil {
+							continue
+						}
+						name := v.Name()
+						count["mul"+name]++
+						key := fmt.Sprintf("product of the count %s in %s #%d", name, fname, count["mul"+name])
+						_, up := w.bounds(info, factsWithSwitch(parents, x), v, fd.Body, x.Pos())
+						if up {
+							r.Ok(key, x.Pos(), "the count has an upper bound here")
+						} else {
+							r.Viol(key, x.Pos(), fmt.Sprintf("`%s` multiplies the wire count %s, which has no upper bound here (ReadCount bounds a count only against in-memory input; from an io.Reader it can be anything up to the int range): the product wraps around, a comparison against it selects the wrong path or a make() gets a negative size - a panic from a two dozen byte input", types.ExprString(x), name))
+						}
 					}
 				}
 			case *ast.ForStmt:
